@@ -36,7 +36,7 @@ CLAIMED.update({
         "(one delivery per subscription whose filter accepts it, none otherwise; loop invariant over the subscription list, unbounded); deliverToSubscription creates exactly one open, unexpired, immediately "
         "due delivery for (message, subscription); the pull candidate query returns every open, unexpired, due (and, when ordered, unblocked) delivery of the subscription when it returns fewer than MaxMessages; "
         "applyResults hands a candidate out without ever completing or removing it (it stays open with a later lease); PruneCompletedDeliveries never removes an open delivery; the pull action's "
-        "single-transaction entry point (verifySub -> query -> applyResults, in a retry loop) is proved to establish each step's precondition from the previous step's postcondition.",
+        "single-transaction entry point (verifySub -> query -> applyResults, in a retry loop) is proved to establish each step's precondition from the previous step's postcondition; the Publish handler returns, per request message and in order, the id of a newly stored message carrying exactly that message's payload, attributes and ordering key on the named live topic.",
    note="Whole-history/liveness part (a pull eventually happens, streaming pull loops) is not under contract; the multi-transaction wrapper ExecuteClient is a trusted summary; concurrency between transactions is not explored (the SQL engine's isolation is assumed: one Execute = one atomic step). "+TRUST,
    design="4/C01"),
  "C02": dict(
@@ -109,8 +109,9 @@ CLAIMED.update({
  "C16": dict(
    text="Deductive no-panic proof of 22 Publisher/Subscriber gRPC handlers, 3 entity mappers and streamWrapper.adaptIn for every request message protobuf decoding can produce (any field nil, empty, negative) and every database content satisfying the stated table invariants: "
         "nil dereference, index, slice, map-write, type assertion, explicit panic() in constructors reached from the handler, division - each is a named obligation. This refuted the pinned code at 11 requests (six fix commits, replayed). "
+        "Every one of the 21 unary handlers that writes through a transaction is also proved to leave topics, subscriptions, messages, deliveries and snapshots exactly as they were whenever it answers with an error (rollback modelled by the transaction idiom; a handler that returns an error after its commit fails this obligation). "
         "For the interceptor chain: the unary and stream fault-injection interceptors either reject a request before the wrapped handler runs or answer with exactly the handler's answer, so an injected fault never turns a request that was carried out into an error.",
-   note="StreamingPull's streamer, the HTTP push path and the assembly of the chain in grpc/server.go are not under contract. Dependencies are assumed panic-free on arguments satisfying their intrinsic preconditions. "+TRUST,
+   note="Pull (its multi-transaction pull action is a trusted summary) is excluded from the error-leaves-state clause; StreamingPull's streamer and the assembly of the chain in grpc/server.go are not under contract. Dependencies are assumed panic-free on arguments satisfying their intrinsic preconditions. "+TRUST,
    design="4/C16"),
  "C17": dict(
    text="Deductive proof that CreateSubscription.Execute / CreateTopic.Execute store exactly the configuration given; that UpdateSubscription / UpdateTopic change exactly the columns named by the update mask on exactly the named live row (loop over mask paths with per-column invariants on the "
